@@ -54,6 +54,26 @@ template<class P, class SetP> static void order_case(const std::string &nm, cons
     Vec f=hx::sym_vector("f",n); auto act=[&](const SCrs &A, bool &threw) { Vec out; try { P pre(std::tie(n,A.ptr,A.col,A.val),prm); NV F=hx::to_numa(f), X(n,false); for (int i=0;i<n;++i) X[i]=scalar(0); pre.apply(F,X); out=hx::to_vec(X); } catch (const std::runtime_error&) { threw=true; } return out; };
     bool t0=false; Vec ref=act(S,t0); for (int variant=0;variant<3;++variant) { SCrs T=shuffled(S,r2,variant); bool t1=false; Vec got=act(T,t1); hx::require(nm+": same outcome (result or exception) for the shuffled matrix", t0==t1); if (t0||t1) continue; hx::prove_eq_vec(nm+": preconditioner built from rows in arbitrary order acts like the one built from sorted rows", got, ref); } },co); }
 
+// block adapter: a scalar matrix whose b x b blocks are structurally INCOMPLETE (some entries of a block absent) viewed through
+// adapter::block_matrix describes the same operator: entries and matrix-vector product agree with the scalar source
+#include <amgcl/adapter/block_matrix.hpp>
+#include <amgcl/value_type/static_matrix.hpp>
+template<int B> static void block_adapter_case(const Pattern &p) { hx::run_case("block_adapter/b"+std::to_string(B)+"/"+p.name, [&]() { typedef amgcl::static_matrix<scalar,B,B> Blk; typedef amgcl::static_matrix<scalar,B,1> BV;
+    SCrs S=hx::symbolic_matrix(p,"a",false); int n=p.n, nb=n/B; auto Sm=hx::to_amgcl(S); auto ad=amgcl::adapter::block_matrix<Blk>(*Sm); be::crs<Blk,ptrdiff_t,ptrdiff_t> Bm(ad);
+    hx::require("block adapter: block rows / cols", Bm.nrows==(size_t)nb && Bm.ncols==(size_t)(p.m/B)); if (Bm.nrows!=(size_t)nb) return;
+    auto d=S.dense(); Vec got(n*p.m,scalar(0)), ref; bool uniq=true; for (size_t I=0;I<Bm.nrows;++I) { std::set<ptrdiff_t> seen; for (ptrdiff_t k=Bm.ptr[I];k<Bm.ptr[I+1];++k) { uniq=uniq&&seen.insert(Bm.col[k]).second; for (int r=0;r<B;++r) for (int c=0;c<B;++c) { size_t ix=(I*B+r)*p.m+Bm.col[k]*B+c; got[ix]=got[ix]+Bm.val[k](r,c); } } } for (int i=0;i<n;++i) for (int j=0;j<p.m;++j) ref.push_back(d[i][j]);
+    hx::require("block adapter: one block per block column in a block row", uniq); hx::prove_eq_vec("block adapter represents the scalar matrix entry by entry (absent entries of a block are zero)", got, ref);
+    Vec x=hx::sym_vector("x",p.m), Sx=hx::dense_mv(S,x); be::numa_vector<BV> X(p.m/B,false), Y(nb,false); for (int I=0;I<p.m/B;++I) { BV v; for (int r=0;r<B;++r) v(r)=x[I*B+r]; X[I]=v; } for (int I=0;I<nb;++I) { BV v; for (int r=0;r<B;++r) v(r)=hx::junk("y"+std::to_string(I*B+r)); Y[I]=v; }
+    be::spmv(scalar(1),Bm,X,scalar(0),Y); Vec yb; for (int I=0;I<nb;++I) for (int r=0;r<B;++r) yb.push_back(Y[I](r)); hx::prove_eq_vec("block adapter: matrix-vector product agrees with the scalar matrix", yb, Sx); }); }
+
+// amg::rebuild(M) with the rows of M in arbitrary order = rebuild with the sorted matrix
+template<class P, class SetP> static void rebuild_order_case(const std::string &nm, const Pattern &p, hx::Rng &rng, SetP setp) { hx::CaseOptions co; co.max_paths=16; hx::run_case("rebuild_row_order/"+nm+"/"+p.name, [&]() { hx::Rng r2(rng.s); SCrs S=hx::ddmatrix(p,r2); int n=p.n; typename P::params prm; setp(prm); prm.allow_rebuild=true;
+    SCrs S2=S;   // the matrix handed to rebuild(): same pattern, off-diagonal values scaled by 3/4
+    for (int i=0;i<n;++i) for (ptrdiff_t k=S.ptr[i];k<S.ptr[i+1];++k) S2.val[k] = S.col[k]==i ? S.val[k] : S.val[k]*scalar(3)/scalar(4);
+    Vec f=hx::sym_vector("f",n); auto act=[&](const SCrs &M, bool &threw) { Vec out; try { P pre(std::tie(n,S.ptr,S.col,S.val),prm); pre.rebuild(std::tie(n,M.ptr,M.col,M.val)); NV F=hx::to_numa(f), X(n,false); for (int i=0;i<n;++i) X[i]=scalar(0); pre.apply(F,X); out=hx::to_vec(X); } catch (const std::runtime_error&) { threw=true; } return out; };
+    bool t0=false; Vec ref=act(S2,t0); hx::require(nm+": rebuild with the sorted matrix does not throw", !t0); if (t0) return;
+    for (int variant=0;variant<3;++variant) { SCrs T=shuffled(S2,r2,variant); bool t1=false; Vec got=act(T,t1); hx::require(nm+": rebuild(M) accepts rows in arbitrary order", !t1); if (t1) continue; hx::prove_eq_vec(nm+": hierarchy rebuilt from rows in arbitrary order acts like the one rebuilt from sorted rows", got, ref); } },co); }
+
 int main(int argc, char **argv) {
     hx::parse_args(argc,argv); bool T=hx::thorough(); hx::Rng rng(hx::args().seed);
     hx::encodes("adapter/crs_tuple.hpp (tuple of ranges with index types int/long/unsigned/size_t/ptrdiff_t, iterator ranges), adapter::zero_copy / zero_copy_direct, adapter::make_matrix (crs_builder), adapter::reorder (reordered_matrix, forward/inverse, cuthill_mckee), adapter::scale_diagonal / scaled_problem, crs(const Matrix&)");
@@ -71,6 +91,8 @@ int main(int argc, char **argv) {
     for (auto &p : std::vector<Pattern>{hx::grid_pattern(3,2),hx::band_pattern(6,1),hx::grid_pattern(2,2)}) { auto ce=[](auto &prm){ prm.coarse_enough=2; }; order_case<A1>("amg<smoothed_aggregation,spai0>",p,rng,ce,false); order_case<A2>("amg<ruge_stuben,gauss_seidel>",p,rng,ce,false); order_case<A3>("amg<aggregation,ilu0>",p,rng,ce,false);
         order_case<R1>("as_preconditioner<ilu0>",p,rng,[](auto&){},false); order_case<R2>("as_preconditioner<gauss_seidel>",p,rng,[](auto &q){ q.serial=true; },false); order_case<D1>("dummy",p,rng,[](auto&){},false);
         if (p.n%2==0) { order_case<C1>("cpr",p,rng,[](auto &q){ q.block_size=2; },false); order_case<S1>("schur_pressure_correction",p,rng,[&](auto &q){ q.pmask.assign(p.n,0); for (int i=0;i<p.n;i+=2) q.pmask[i]=1; },false); } }
+    for (auto &p : std::vector<Pattern>{hx::grid_pattern(3,2),hx::band_pattern(6,1)}) { auto ce=[](auto &prm){ prm.coarse_enough=2; }; rebuild_order_case<A3>("amg<aggregation,ilu0>",p,rng,ce); rebuild_order_case<A1>("amg<smoothed_aggregation,spai0>",p,rng,ce); rebuild_order_case<A2>("amg<ruge_stuben,gauss_seidel>",p,rng,ce); }
+    for (int k=0;k<(T?40:12);++k) { block_adapter_case<2>(hx::random_pattern(4,4,rng,1+k%3,k%2==0)); if (k%3==0) block_adapter_case<2>(hx::random_pattern(4,6,rng,2,false)); if (k%4==0) block_adapter_case<3>(hx::random_pattern(6,6,rng,2+k%2,true)); }
     for (auto &p : std::vector<Pattern>{hx::band_pattern(3,1),hx::dense_pattern(3,3)}) { order_case<R1>("as_preconditioner<ilu0> (symbolic matrix)",p,rng,[](auto&){},true); order_case<A1>("amg<smoothed_aggregation,spai0> (symbolic matrix)",p,rng,[](auto &prm){ prm.coarse_enough=1; },true); }
     return hx::finish();
 }
